@@ -19,7 +19,7 @@ from vcore.pool import pmap
 from vcore import session as S
 from vcore import tlc as T
 
-C13_VERDICTS = {"mode_changed", "frozen_statistics_written", "argument_modified", "state_written_in_eval", "undocumented_state_write", "repeat_differs", "reinitialised", "reinitialised_after_reload"}
+C13_VERDICTS = {"depends_on_history", "mode_changed", "frozen_statistics_written", "argument_modified", "state_written_in_eval", "undocumented_state_write", "repeat_differs", "reinitialised", "reinitialised_after_reload"}
 
 
 def run_sessions(run, verdicts, thorough, n_random, rand_len, cover=True, max_cover_steps=None, seeds=(0,), patterns=()):
